@@ -1,10 +1,14 @@
 use crate::prop::Prop;
 pub mod c01;
+pub mod c04;
+pub mod c05;
 pub mod tools;
 
 pub fn lookup(id: &str) -> Option<&'static dyn Prop> {
     Some(match id {
         "C01" => &c01::C01,
+        "C04" => &c04::C04,
+        "C05" => &c05::C05,
         _ => return None,
     })
 }
